@@ -13,7 +13,7 @@ from . import gen_json
 
 # ASCII-only keys without integer look-alikes and without the library's pointer
 # extensions ('~name', '#name'): where RFC 6901 and the statement are unambiguous.
-PATCH_KEYS = ["a", "b", "c", "x", "y", "d", "", "a b", "'", '"', "a/b", "m~n", "k-1", "_p"]
+PATCH_KEYS = ["a", "b", "c", "x", "y", "d", "", "a b", "'", '"', "a/b", "m~n", "k-1", "_p", "t ", "w\t", "%41"]
 
 
 def patch_profile(rng: random.Random) -> Dict[str, Any]:
